@@ -739,6 +739,7 @@ struct ReplyWorld : World {
 	void gen_dgram(Rng &r, Plan &p, int tier) {
 		p.set("layer", 3);
 		p.set("idlen", r.chance(1, 8) ? 0 : r.range(1, 4));      // width 0: a connection without ids, everything is one-way
+		p.set("forge", r.chance(1, 4));
 		int nops = (int) r.range(1, tier ? 80 : 40); bool net = r.chance(2, 3), af = r.chance(1, 3);
 		for (int i = 0; i < nops; ++i) {
 			Op op; unsigned k = (unsigned) r.below(16);
@@ -897,7 +898,17 @@ struct ReplyWorld : World {
 				outcome = R.sent;
 				break;
 			}
-			case OP_DELIVER: outcome = deliver(side, (size_t) op.c, op.fault); break;
+			case OP_DELIVER:
+				if (p.get("forge") && C.idlen && ((uint64_t) op.a & 0xf000) == 0x7000) {
+					// a datagram nobody sent arrives: marked as reply, with an id no request has. It may be refused or dropped; it must reach no
+					// handler, and it must not leave anything behind that the next message of this side goes out with.
+					Bytes m(C.idlen); for (unsigned k = 0; k < C.idlen; ++k) m[k] = (uint8_t) (0xfe - k); m[0] = (uint8_t) (0x80 | 0x7e);
+					m.push_back((uint8_t) msgtype::Answer); m.push_back(0); m.push_back('f'); m.push_back('g');
+					simio::dchan(D[side].rchan)->avail.push_back(m);
+					log.ev("FORGED reply datagram of %zu bytes arrives at %s", m.size(), C.peer[side].name); st.hit("fault:forged_reply_datagram");
+					outcome = 1; break;
+				}
+				outcome = deliver(side, (size_t) op.c, op.fault); break;
 			case OP_SERVE: outcome = serve(side, alloc_fault(op, FL_ALLOC), (op.a & 0xf00) == 0x300) >= 0; break;
 			case OP_FLUSH: { int n; { Sut s; n = P.in->next(POLLOUT); } log.ev("FLUSH %s -> %d", Q.name, n); audit_wire(side); outcome = 1; break; }
 			case OP_DREPLY2: {
